@@ -7,7 +7,7 @@ import os
 import re
 
 import facts
-from facts import REPO, Program, extract, show, call_args, walk
+from facts import REPO, Program, extract, show, call_args, call_obj, walk
 
 UNDEF = ("FFFF", "IFFFF")
 LOOPS = ("For", "While", "Do", "ForRange")
@@ -150,3 +150,72 @@ def units_with_pattern():
         if pat.search(t) and "break" in t:
             out.append(u)
     return out
+
+
+def rank_loop_rule(prog, chk, rule, file_filter, floor_n):
+    """the rank argument of a per-sample Db accessor never receives a loop variable that ranges over the VARIABLES / DIMENSIONS
+    (`for (iech = 0; iech < nvar; iech++) db->isActive(iech)` visits the first nvar samples only) nor over the number of ACTIVE
+    samples (`iech < db->getSampleNumber(true)`: with a selection the last samples are never visited)"""
+    import gates
+    from e1_paths import single_def
+    nk = 0
+    for f in sorted(prog.funcs, key=lambda x: (x.file, x.line)):
+        if f.body is None or not any(s_ in f.file for s_ in file_filter):
+            continue
+        lb = {}
+        for loop in f.walk():
+            if loop["k"] == "For" and loop["c"][1] is not None:
+                for x in walk(loop["c"][1]):
+                    if x["k"] == "BinOp" and x.get("op") in ("<", "<=") and x["c"][0] is not None and x["c"][0]["k"] == "DeclRefExpr":
+                        lb.setdefault(x["c"][0]["d"], []).append(x["c"][1])
+
+        def bound_kind(b, depth=0):
+            while b is not None and b["k"] == "Cast":
+                b = b["c"][0]
+            if b is None or depth > 3:
+                return None
+            if b["k"] == "MCall":
+                short = (b.get("callee") or "").split("::")[-1]
+                a = call_args(b)
+                if short in ("getNVar", "getVariableNumber", "getNVariables"):
+                    return "the number of variables"
+                if short in ("getLocNumber", "getLocatorNumber") and a and a[0] is not None and (a[0].get("q") or show(a[0])) == "ELoc::Z":
+                    return "the number of variables"
+                if short == "getActiveSampleNumber" or (short == "getSampleNumber" and a and a[0] is not None and a[0]["k"] == "Bool" and a[0]["v"] is True):
+                    # a data base the function has just built itself carries no selection: active count = total count
+                    o = call_obj(b)
+                    if o is not None and o["k"] == "DeclRefExpr" and o.get("dk") == "var":
+                        od = single_def(f, o["d"])
+                        if od is not None and any(y["k"] in ("Call", "MCall") and (y.get("callee") or "").split("::")[-1].startswith("create") for y in walk(od)):
+                            return None
+                    return "the number of ACTIVE samples"
+            if b["k"] == "MemberExpr" and b.get("n") in ("_nVar", "_nvar"):
+                return "the number of variables"
+            if b["k"] == "DeclRefExpr" and b.get("dk") == "var":
+                d = single_def(f, b["d"])
+                if d is not None and d is not b:
+                    return bound_kind(d, depth + 1)
+            return None
+        for c in f.calls():
+            if c["k"] != "MCall" or not (c.get("cls") or "").startswith("Db"):
+                continue
+            ri = gates.rank_arg_index(prog, c)
+            a = call_args(c)
+            if ri is None or ri >= len(a) or a[ri] is None:
+                continue
+            x = a[ri]
+            while x["k"] == "Cast":
+                x = x["c"][0]
+            if x["k"] != "DeclRefExpr" or x.get("d") not in lb:
+                continue
+            nk += 1
+            kinds = {bound_kind(b) for b in lb[x["d"]]}
+            bad = None not in kinds and len(kinds) == 1
+            if bad:
+                chk.analysed(f)
+            short = (c.get("callee") or "").split("::")[-1]
+            chk.ob(rule, "%s: the sample rank `%s` of %s ranges over all the samples" % (f.name, x["n"], short), f.loc(c), not bad,
+                   detail=None if not bad else "`%s` is the variable of a loop bounded by %s and is used as a sample rank: the loop does not visit the samples "
+                   "it is meant to (the statistic computed here ignores some samples)" % (x["n"], list(kinds)[0]),
+                   key="%s|%s|%s(%s)" % (rule, f.name, short, x["n"]), nontrivial=bad)
+    chk.floor(rule, nk, floor_n)
